@@ -22,6 +22,8 @@ pub struct RunCfg {
     pub cache_data: u32,
     pub pool: usize,
     pub doc: DocCfg,
+    /// "sim" (SimAdapter alone) or the name of a real backend behind it (C17)
+    pub backend: String,
 }
 
 impl RunCfg {
@@ -30,7 +32,7 @@ impl RunCfg {
             "seed": self.seed, "prop": self.prop, "profile": self.profile, "n_replicas": self.n_replicas,
             "hash_seed": self.hash_seed, "order_seed": self.order_seed, "list_seed": self.list_seed,
             "cache_ad": self.cache_ad, "cache_data": self.cache_data, "pool": self.pool,
-            "build": crate::seam::FLAVOUR,
+            "build": crate::seam::FLAVOUR, "backend": self.backend,
             "doc": { "id_pool": self.doc.id_pool, "nasty": self.doc.nasty, "floats": self.doc.floats,
                      "max_elems": self.doc.max_elems, "kinds": self.doc.kinds, "nested": self.doc.nested, "bang_ids": self.doc.bang_ids },
         })
@@ -51,6 +53,7 @@ impl RunCfg {
             cache_ad: u("cache_ad")? as u32,
             cache_data: u("cache_data")? as u32,
             pool: u("pool").unwrap_or(4) as usize,
+            backend: v.get("backend").and_then(|x| x.as_str()).unwrap_or("sim").to_string(),
             doc: DocCfg { id_pool: du("id_pool"), nasty: db("nasty"), floats: db("floats"), max_elems: du("max_elems"), kinds: db("kinds"), nested: db("nested"), bang_ids: db("bang_ids") },
         })
     }
@@ -163,6 +166,19 @@ impl World {
         };
         for i in 0..w.cfg.n_replicas {
             let disk = DiskRef::new(w.cfg.list_seed ^ (i as u64 + 1).wrapping_mul(0x9E3779B97F4A7C15));
+            if w.cfg.backend != "sim" && !w.cfg.backend.is_empty() {
+                let path = w.backend_path(i);
+                let _ = std::fs::create_dir_all(crate::backends::scratch_root());
+                let _ = std::fs::remove_dir_all(&path);
+                let _ = std::fs::remove_file(&path);
+                match crate::backends::open(&w.cfg.backend, &path) {
+                    Ok(b) => disk.with(|d| {
+                        d.backend = Some(b);
+                        d.backend_name = w.cfg.backend.clone();
+                    }),
+                    Err(c) => return Err(Stop::Violation(Violation { prop: w.prop.clone(), check: "backend-open".into(), class: format!("backend-open-{}", c.class()), step: 0, detail: format!("constructing backend {} does not return: {}", w.cfg.backend, c.text()) })),
+                }
+            }
             let store = disk.store();
             let live = match guard(|| Melda::new(store)) {
                 Ok(Ok(m)) => m,
@@ -204,6 +220,23 @@ impl World {
             all_items: BTreeMap::new(),
             nontrivial: false,
             cfg,
+        }
+    }
+
+    pub fn backend_path(&self, i: usize) -> String {
+        format!("{}/w{:x}-r{}", crate::backends::scratch_root(), self.cfg.seed, i)
+    }
+
+    /// Removes the scratch storage of real backends (C17).
+    pub fn cleanup(&mut self) {
+        if self.cfg.backend != "sim" && !self.cfg.backend.is_empty() {
+            for i in 0..self.replicas.len() {
+                self.replicas[i].live = None;
+                self.replicas[i].disk.with(|d| d.backend = None);
+                let p = self.backend_path(i);
+                let _ = std::fs::remove_dir_all(&p);
+                let _ = std::fs::remove_file(&p);
+            }
         }
     }
 
@@ -857,7 +890,7 @@ impl World {
                         }
                     }
                 }
-                self.replicas[to].disk.with(|d| d.map.insert(key.to_string(), bytes.to_vec()));
+                self.replicas[to].disk.put(key, bytes);
                 self.bump("probe.delivered");
                 self.note_item(key, bytes)?;
             }
@@ -921,6 +954,16 @@ impl World {
     fn op_restart(&mut self, r: usize) -> Res {
         // only durable state survives: staged changes are lost by definition
         self.replicas[r].live = None;
+        if crate::backends::persistent(&self.cfg.backend) {
+            // the backend object dies with the process; a new one is constructed on the same storage
+            self.replicas[r].disk.with(|d| d.backend = None);
+            let path = self.backend_path(r);
+            match crate::backends::open(&self.cfg.backend, &path) {
+                Ok(b) => self.replicas[r].disk.with(|d| d.backend = Some(b)),
+                Err(c) => viol!(self, "backend-reopen", format!("backend-reopen-{}", c.class()), "re-opening backend {} on its existing storage does not return: {}", self.cfg.backend, c.text()),
+            }
+            self.bump("fault.backend_reopen");
+        }
         let store = self.replicas[r].disk.store();
         let res = self.call("open", || Melda::new(store))?;
         self.replicas[r].disk.take_log();
@@ -1719,6 +1762,14 @@ impl World {
     // ---------------------------------------------------------------- after every op
 
     fn after_op(&mut self, op: &Op) -> Res {
+        if self.cfg.backend != "sim" {
+            for i in 0..self.replicas.len() {
+                if let Some(m) = self.replicas[i].disk.with(|d| d.backend_mismatch.take()) {
+                    let kind = m.split('(').next().unwrap_or("call").to_string();
+                    viol!(self, "backend-contract", format!("backend-mismatch:{}:{}", kind, self.cfg.backend), "replica {} after {}: {}", i, op.name(), m);
+                }
+            }
+        }
         // storage only grows, items never change (C11)
         if self.is(&["C11"]) {
             for i in 0..self.replicas.len() {
